@@ -159,16 +159,17 @@ def evaluate__name_related_functions(self: XPathFunction, context: ta.ContextTyp
         raise self.missing_context()
 
     arg = self.get_argument(context, default_to_context=True)
+    symbol = self.symbol
+    empty = AnyURI('') if symbol == 'namespace-uri' and self.parser.version != '1.0' else ''
     if arg is None:
-        return ''
+        return empty
     elif not isinstance(arg, XPathNode):
         raise self.error('XPTY0004')
 
     name = arg.name
     if name is None:
-        return ''
+        return empty
 
-    symbol = self.symbol
     if symbol == 'name':
         node_name = arg.node_name
         if node_name is None:
